@@ -337,6 +337,7 @@ pub fn exec_action(w: &Rc<World>, a: &Action) {
             st.set_max_height_allowed(*n);
             act(w, Act::SetMaxHeight { n: *n });
         }
+        Action::X(_) => {}
         Action::Teardown { .. } | Action::DropState => {
             // handled by the run loop (terminal)
         }
